@@ -58,7 +58,13 @@ FloatIn == { [a |-> "in", ep |-> "float", v1 |-> <<>>, v2 |-> <<>>, h1 |-> 0, h2
               m1 |-> m, m2 |-> n, ac |-> c] :
              m \in {"zero", "ns", "ms", "s", "max"}, n \in {"zero", "ns", "ms", "s", "max"},
              c \in {"none", "small", "cancel", "negbig", "posbig", "huge"} }
-Inputs == SameDim \cup Mismatch \cup FloatIn
+\* the boundary of the seconds -> time.Duration conversion: d0 = the one float64 whose product with 1e9 is exactly 2^63 ns
+\* (Duration(MaxInt64).Seconds()) and its -2..+2 ulp neighbours, reached as adjusted distance of ordinary coordinates
+\* (raw distance 6 s) through the adjustment split `ac`; observed: bnd = <<MaxInt64 - result>> per neighbour (-1: the
+\* result was negative; capped), neg / dns over both directions
+BoundIn == { [a |-> "in", ep |-> "bound", v1 |-> <<>>, v2 |-> <<>>, h1 |-> 0, h2 |-> 0, a1 |-> 0, a2 |-> 0, sc |-> 0,
+              m1 |-> "-", m2 |-> "-", ac |-> c] : c \in {"split0", "split1", "split2", "split3"} }
+Inputs == SameDim \cup Mismatch \cup FloatIn \cup BoundIn
 
 ------------------------------------------------------------------------------
 (* laws of the definition (checked by TLC on every exact input) *)
@@ -76,6 +82,7 @@ Expected(i) == IF i.ep = "exact"
   THEN LET d == Dist(i.v1, i.h1, i.a1, i.v2, i.h2, i.a2)
        IN [ab |-> IF d = DimErr THEN 0 ELSE d, ba |-> IF d = DimErr THEN 0 ELSE d, rem |-> 0,
            err |-> IF d = DimErr THEN 1 ELSE 0, neg |-> 0, dns |-> 0]
+  ELSE IF i.ep = "bound" THEN [ab |-> 0, ba |-> 0, rem |-> 0, err |-> 0, neg |-> 0, dns |-> 0, bnd |-> <<2047, 1023, 0, 0, 0>>]
   ELSE [ab |-> 0, ba |-> 0, rem |-> 0, err |-> 0, neg |-> 0, dns |-> 0]
 
 Clauses(i, o) ==
@@ -84,6 +91,11 @@ Clauses(i, o) ==
   \cup (IF e.err = 1 /\ o.err # 1 THEN {"C21_dimension_error"} ELSE {})
   \cup (IF e.err = 0 /\ o.err = 0 /\ o.neg # 0 THEN {"C21_non_negative"} ELSE {})
   \cup (IF e.err = 0 /\ o.err = 0 /\ o.dns > 1 THEN {"C21_symmetric"} ELSE {})
+  \* around the saturation boundary the estimate is non-negative and does not decrease as the distance grows
+  \* (bnd[k] = MaxInt64 - estimate: non-negative and non-increasing)
+  \cup (IF i.ep = "bound" /\ \E k \in DOMAIN o.bnd : o.bnd[k] < 0 THEN {"C21_non_negative"} ELSE {})
+  \cup (IF i.ep = "bound" /\ \E k \in 1..(Len(o.bnd) - 1) : o.bnd[k] >= 0 /\ o.bnd[k + 1] >= 0 /\ o.bnd[k] < o.bnd[k + 1]
+        THEN {"C21_monotone_boundary"} ELSE {})
 
-Tags(i) == {i.ep} \cup (IF i.ep = "float" THEN {i.ac} ELSE {})
+Tags(i) == {i.ep} \cup (IF i.ep \in {"float", "bound"} THEN {i.ac} ELSE {})
 =============================================================================
